@@ -6,5 +6,7 @@ python3 "$ROOT/harness/gen_coqproject.py" >/dev/null
 cd "$ROOT/coq"
 coq_makefile -f _CoqProject -o Makefile >/dev/null
 timeout 5400 make -j16 2>&1 | grep -v 'Cannot open' | tail -5
+# source refinement of reg_access.py (translator + PyLite proofs); never fatal: see harness/srcref.py
+python3 "$ROOT/harness/srcref.py" | grep -E '"status"' || true
 cd "$ROOT/ocaml" && ./build.sh
 test -x "$ROOT/ocaml/driver.exe" && echo setup-ok
